@@ -193,7 +193,9 @@ ValueMod(m, v, applied, hasField, raw) ==
             ELSE LET r == RefOffset3(Utf8Seq(v.parts))
                  IN  OK(<<VExp([k \in 1..3 |-> VStr("str", r[k], <<>>)])>>))
       [] m \in {N_wide, N_utf16, N_utf16be} ->
-           (IF ~IsStrLike(v) THEN REJECT ELSE UNSPEC)          \* byte-exactness is C04's business
+           (IF ~IsStrLike(v) THEN REJECT
+            ELSE IF HasPH(v) THEN REJECT                       \* what the placeholder will be replaced by would not be re-encoded
+            ELSE UNSPEC)                                       \* byte-exactness is C04's business
       [] m = N_windash ->
            (IF ~IsStrLike(v) THEN REJECT
             ELSE IF HasPH(v) THEN UNSPEC
